@@ -1,2 +1,251 @@
--- driver stub (replaced when the model for C20 is built)
-def main : IO Unit := pure ()
+/-
+  Driver for C20: one request per line.
+
+    conv <T2> <nops> <op>...      run operations on a data object; reply `ok <T2>` or
+                                  `exc <Name> <index of the failing op> <T2 reached>`
+    eos  <arg> <dict> <sim> <n>   eos_json          → `ok s<hex> <0|1>` | `exc <Name>`
+    rocks <LS> <LS> <nAtm> <blocks> <atmos>         → `ok <n> (<k> i.. )*` | `exc <Name>`
+    bdy  <blocks> <atmos>                           → `ok <LS>`
+    src  <LS> <nAtm> <gens> <dictSize>              → `ok <n> (s<hex> cell)*` | `exc <Name>`
+    whist <items> / wcons <items>                   → `ok <LS>` | `exc AttributeError`
+    rhist <LS blocks> <LS lines>                    → `ok <items>`
+    hyp  <T2>                                       → truth of the theorem hypotheses on this object
+
+  Encoding: strings `s<hex>`, integers `i<dec>`, rationals `q<num>/<den>`, None `n`, lists are
+  length-prefixed.  The same encoding is used for the reply, so the harness needs one encoder.
+-/
+import PyTough.Model.Waiwera
+import PyTough.Py.Proto
+open Py Model.Convert Model.Waiwera
+
+abbrev P := StateT (List String) Option
+
+def tok : P String := do
+  match (← get) with
+  | [] => failure
+  | t :: r => set r; pure t
+
+def pNat : P Nat := do
+  let t ← tok
+  match t.toNat? with
+  | some n => pure n
+  | none => failure
+
+def pStr : P Str := do
+  let t ← tok
+  match t.toList with
+  | 's' :: h => pure (ofHexAux h)
+  | _ => failure
+
+def pIntTok (t : String) : Option Int := (String.ofList (t.toList.drop 1)).toInt?
+
+def pInt : P Int := do
+  let t ← tok
+  match t.toList with
+  | 'i' :: _ => match pIntTok t with | some i => pure i | none => failure
+  | _ => failure
+
+def pRatOf (cs : List Char) : Option Rat :=
+  match (String.ofList cs).splitOn "/" with
+  | [a, b] => match a.toInt?, b.toNat? with
+    | some n, some d => some (mkRat n d)
+    | _, _ => none
+  | _ => none
+
+def pRat : P Rat := do
+  let t ← tok
+  match t.toList with
+  | 'q' :: r => match pRatOf r with | some q => pure q | none => failure
+  | _ => failure
+
+def pV : P PyV := do
+  let t ← tok
+  match t.toList with
+  | ['n'] => pure .none
+  | 'i' :: _ => match pIntTok t with | some i => pure (.int i) | none => failure
+  | 'q' :: r => match pRatOf r with | some q => pure (.num q) | none => failure
+  | 's' :: h => pure (.str (ofHexAux h))
+  | _ => failure
+
+def pList {α} (p : P α) : P (List α) := do
+  let n ← pNat
+  let rec go : Nat → P (List α)
+    | 0 => pure []
+    | k + 1 => do let x ← p; let r ← go k; pure (x :: r)
+  go n
+
+def pOpt {α} (p : P α) : P (Option α) := do
+  let n ← pNat
+  if n = 0 then pure none else do let x ← p; pure (some x)
+
+def pDict : P Dict := pList (do let k ← pStr; let v ← pV; pure (k, v))
+
+def pGen : P Gener := do
+  let id ← pNat; let b ← pStr; let n ← pStr; let t ← pStr; let p ← pNat
+  pure { id := id, block := b, name := n, type := t, payload := p }
+
+def pRock : P Rock := do
+  let n ← pStr; let po ← pRat; let c ← pRat; let p ← pNat
+  pure { name := n, porosity := po, conductivity := c, payload := p }
+
+def pItem : P Item := do
+  let t ← tok
+  match t with
+  | "B" => do let n ← pStr; pure (.blk n)
+  | "C" => do let a ← pStr; let b ← pStr; pure (.con a b)
+  | "G" => do let i ← pNat; let b ← pStr; let n ← pStr; pure (.gen i b n)
+  | "S" => do let n ← pStr; pure (.str n)
+  | "T" => do let a ← pStr; let b ← pStr; pure (.tup a b)
+  | _ => failure
+
+def pShort : P Short := do
+  let f ← pOpt pV; let b ← pOpt (pList pItem); let c ← pOpt (pList pItem); let g ← pOpt (pList pItem)
+  pure { freq := f, block := b, con := c, gen := g }
+
+def pT2 : P T2 := do
+  let fn ← pStr; let sim ← pStr; let secs ← pList pStr
+  let multi ← pDict; let lineq ← pDict; let solver ← pDict
+  let opt ← pList pInt; let rocks ← pList pRock; let gens ← pList pGen
+  let gd ← pList (do let b ← pStr; let n ← pStr; let i ← pNat; pure ((b, n), i))
+  let sh ← pShort
+  let hb ← pList pItem; let hc ← pList pItem; let hg ← pList pItem
+  let other ← pList pStr; let blocks ← pList pStr
+  pure { filename := fn, simulator := sim, sections := secs, multi := multi, lineq := lineq, solver := solver,
+         option := opt, rocks := rocks, gens := gens, gendict := gd, short := sh,
+         histBlock := hb, histCon := hc, histGen := hg, other := other, blocks := blocks }
+
+/-! encoders -/
+def eStr (s : Str) : String := "s" ++ toHex s
+def eRat (q : Rat) : String := s!"q{q.num}/{q.den}"
+def eV : PyV → String
+  | .none => "n" | .int i => s!"i{i}" | .num q => eRat q | .str s => eStr s
+def eList {α} (f : α → String) (l : List α) : String :=
+  String.intercalate " " (toString l.length :: l.map f)
+def eOpt {α} (f : α → String) : Option α → String
+  | none => "0" | some x => "1 " ++ f x
+def eDict (d : Dict) : String := eList (fun e => eStr e.1 ++ " " ++ eV e.2) d
+def eGen (g : Gener) : String := s!"{g.id} {eStr g.block} {eStr g.name} {eStr g.type} {g.payload}"
+def eRock (r : Rock) : String := s!"{eStr r.name} {eRat r.porosity} {eRat r.conductivity} {r.payload}"
+def eItem : Item → String
+  | .blk n => "B " ++ eStr n
+  | .con a b => "C " ++ eStr a ++ " " ++ eStr b
+  | .gen i b n => s!"G {i} {eStr b} {eStr n}"
+  | .str n => "S " ++ eStr n
+  | .tup a b => "T " ++ eStr a ++ " " ++ eStr b
+def eShort (s : Short) : String :=
+  String.intercalate " " [eOpt eV s.freq, eOpt (eList eItem) s.block, eOpt (eList eItem) s.con, eOpt (eList eItem) s.gen]
+def eT2 (d : T2) : String :=
+  String.intercalate " " [eStr d.filename, eStr d.simulator, eList eStr d.sections, eDict d.multi, eDict d.lineq,
+    eDict d.solver, eList (fun (i : Int) => s!"i{i}") d.option, eList eRock d.rocks, eList eGen d.gens,
+    eList (fun e => s!"{eStr e.1.1} {eStr e.1.2} {e.2}") d.gendict, eShort d.short,
+    eList eItem d.histBlock, eList eItem d.histCon, eList eItem d.histGen, eList eStr d.other, eList eStr d.blocks]
+
+/-! operations -/
+inductive Op where
+  | toT2 (mp : Bool) | toA2 (mp : Bool) (sim eos : Str) | setType (v : Str)
+  | paramsA2T (mp : Bool) | paramsT2A (mp : Bool) | gensA2T | s2h | h2s
+  | addGen (g : Gener) | delGen (b n : Str) | insSec (s : Str) | delSec (s : Str) | updSec
+
+def pBool : P Bool := do let n ← pNat; pure (n != 0)
+
+def pOp : P Op := do
+  let t ← tok
+  match t with
+  | "toT2" => do let m ← pBool; pure (.toT2 m)
+  | "toA2" => do let m ← pBool; let s ← pStr; let e ← pStr; pure (.toA2 m s e)
+  | "setType" => do let v ← pStr; pure (.setType v)
+  | "paramsA2T" => do let m ← pBool; pure (.paramsA2T m)
+  | "paramsT2A" => do let m ← pBool; pure (.paramsT2A m)
+  | "gensA2T" => pure .gensA2T
+  | "s2h" => pure .s2h
+  | "h2s" => pure .h2s
+  | "addGen" => do let g ← pGen; pure (.addGen g)
+  | "delGen" => do let b ← pStr; let n ← pStr; pure (.delGen b n)
+  | "insSec" => do let s ← pStr; pure (.insSec s)
+  | "delSec" => do let s ← pStr; pure (.delSec s)
+  | "updSec" => pure .updSec
+  | _ => failure
+
+def applyOp (d : T2) : Op → T2 × Option Exc
+  | .toT2 m => convertToTough2 m d
+  | .toA2 m s e => convertToAutough2 m s e d
+  | .setType v => setType v d
+  | .paramsA2T m => convParamsA2T m d
+  | .paramsT2A m => convParamsT2A m d
+  | .gensA2T => (convertGenerators d, none)
+  | .s2h => (shortToHistory d, none)
+  | .h2s => (historyToShort d, none)
+  | .addGen g => (addGenerator d g, none)
+  | .delGen b n => deleteGenerator d (b, n)
+  | .insSec s => (insertSection d s, none)
+  | .delSec s => (deleteSection d s, none)
+  | .updSec => (updateSections d, none)
+
+def runOps : T2 → List Op → Nat → String
+  | d, [], _ => "ok " ++ eT2 d
+  | d, op :: r, i =>
+    match applyOp d op with
+    | (d', none) => runOps d' r (i + 1)
+    | (d', some e) => s!"exc {e.toString} {i} " ++ eT2 d'
+
+def pBlocks : P (List WBlock) := pList (do let n ← pStr; let r ← pStr; let v ← pRat; pure { name := n, rock := r, volume := v })
+
+def eCell : Option Int → String | none => "n" | some i => s!"i{i}"
+
+def b01 (b : Bool) : String := if b then "1" else "0"
+
+def request : P String := do
+  let t ← tok
+  match t with
+  | "conv" => do
+    let d ← pT2; let ops ← pList pOp
+    pure (runOps d ops 0)
+  | "eos" => do
+    let a ← tok
+    let arg : EosArg ← match a.toList with
+      | ['n'] => pure EosArg.none
+      | 'i' :: _ => match pIntTok a with | some i => pure (EosArg.idx i) | none => failure
+      | 's' :: h => pure (EosArg.name (ofHexAux h))
+      | _ => failure
+    let m ← pDict; let sim ← pStr; let n ← pNat
+    pure (match eosJson arg m sim n with
+      | .ok o => s!"ok {eStr o.name} {b01 o.tracer}"
+      | .error e => "exc " ++ e.toString)
+  | "rocks" => do
+    let rn ← pList pStr; let gn ← pList pStr; let na ← pNat; let bs ← pBlocks; let atm ← pRat
+    pure (match rockCells rn gn na bs atm with
+      | .ok cells => "ok " ++ eList (eList (fun (i : Int) => s!"i{i}")) cells
+      | .error e => "exc " ++ e.toString)
+  | "bdy" => do
+    let bs ← pBlocks; let atm ← pRat
+    pure ("ok " ++ eList eStr (boundaryBlocks bs atm))
+  | "src" => do
+    let gn ← pList pStr; let na ← pNat; let gs ← pList pGen; let n ← pNat
+    pure (match sources gn na gs n with
+      | .ok ss => "ok " ++ eList (fun s => eStr s.name ++ " " ++ eCell s.cell) ss
+      | .error e => "exc " ++ e.toString)
+  | "whist" => do
+    let l ← pList pItem
+    pure (match writeNames l with | some ns => "ok " ++ eList eStr ns | none => "exc AttributeError")
+  | "wcons" => do
+    let l ← pList pItem
+    pure (match writeCons l with
+      | some ns => "ok " ++ eList (fun p => eStr p.1 ++ " " ++ eStr p.2) ns
+      | none => "exc AttributeError")
+  | "rhist" => do
+    let bs ← pList pStr; let ls ← pList pStr
+    pure ("ok " ++ eList eItem (readNames bs ls))
+  | "rcons" => do
+    let bs ← pList pStr
+    let cs ← pList (do let a ← pStr; let b ← pStr; pure (a, b))
+    let ls ← pList (do let a ← pStr; let b ← pStr; pure (a, b))
+    pure ("ok " ++ eList eItem (readCons bs cs ls))
+  | _ => failure
+
+def handle (ws : List String) : String :=
+  match request.run ws with
+  | some (r, []) => r
+  | some (_, _) => "bad-request trailing-tokens"
+  | none => "bad-request"
+
+def main : IO Unit := serve handle
